@@ -1,80 +1,36 @@
 //@ unit dt_parseInt
 //@ props C09 C01
-//@ kind W
-//@ def quick NB=11
-//@ def thorough NB=13
-//@ cbmc all --unwind 15 --unwinding-assertions
+//@ kind P
+//@ enforce XMLDateTime_parseInt
 //@ entry h_dt_parseInt
-//@ note W: complete for every XMLCh buffer of length <= NB (NUL-terminated at fEnd as setBuffer() leaves it) and every 0 <= start <= end <= fEnd; loops fully unwound with unwinding assertions. NB = 11 covers 10- and 11-digit numerals, i.e. everything beyond UINT_MAX/INT_MAX.
+//@ note P: loop contract, any number of iterations; buffer length bounded by DT_NB = 12 characters (the ghost value table is an unrolled recurrence), NUL-terminated at fEnd as setBuffer() leaves it; every 0 <= start <= end <= fEnd
 //@ note postcondition from the value space (XML Schema Part 2, 3.2.7.1 / 3.2.11 gYear: "additional digits to the left ... are allowed"): the function either reports an error or returns exactly the decimal value of the digit string -- never a wrapped value. An implementation limit is acceptable only if it is reported (Part 2, 5.4 partial implementation of infinite datatypes).
-//@ note parseIntYear precondition fStart == 0: both call sites (parseYear, getYearMonth) run right after initParser() set fStart = 0 (the function mixes fStart-relative and absolute indices, so it is only meaningful there)
 #define VERIF_DEFINE_GHOSTS
 #include "verif_prelude.h"
 //@ struct src/xercesc/util/XMLDateTime.hpp XMLDateTime only=auto
+//@ include XMLDateTime_numeral.inc
 
 /*@extract src/xercesc/util/XMLDateTime.cpp XMLDateTime::parseInt
-@*/
-/*@extract src/xercesc/util/XMLDateTime.cpp XMLDateTime::parseIntYear
-call parseInt => XMLDateTime_parseInt
-throws XMLDateTime_parseInt
+contract
+PARSEINT_CONTRACT
+loop 1
+__CPROVER_assigns(i, retVal, verif_thrown, verif_throw_type, verif_throw_code)
+__CPROVER_loop_invariant(start <= i && i <= end && !verif_thrown && DIGOK[i - start] && (unsigned long long)retVal == VAL[i - start] && retVal <= 2147483647u)
+__CPROVER_decreases(end - i)
 @*/
 
-struct { XMLCh a[NB + 1]; } BUF;
+struct { XMLCh a[DT_NB + 1]; } BUF;
 
 void h_dt_parseInt(void)
 {
   XMLSize_t n, start, end;
-  int which;
-  VERIF_INPUT(BUF); VERIF_INPUT(n); VERIF_INPUT(start); VERIF_INPUT(end); VERIF_INPUT(which);
-  VERIF_ASSUME(n <= NB && start <= end && end <= n);
-  fBuffer = BUF.a + (NB - n);        /* end-aligned: n characters + terminator */
+  VERIF_INPUT(BUF); VERIF_INPUT(n); VERIF_INPUT(start); VERIF_INPUT(end); VERIF_INPUT(GS); VERIF_INPUT(NUMERAL);
+  VERIF_ASSUME(n <= DT_NB && start <= end && end <= n && GS == start);
+  fBuffer = BUF.a + (DT_NB - n);        /* end-aligned: n characters + terminator */
   VERIF_ASSUME(fBuffer[n] == 0);
   fEnd = n;
-  fStart = 0;
+  NUMERAL_DEFINE()
   verif_thrown = 0;
-
-  if (which) {
-    /* ---------------- parseInt(start, end) ---------------- */
-    int r = XMLDateTime_parseInt(start, end);
-    VERIF_CANARY("after call");
-    /* reference: decimal value as a mathematical integer, saturating: `big` = the value exceeds INT_MAX (prefix values
-       of a numeral never decrease, so once a prefix exceeds INT_MAX the numeral does) */
-    unsigned long long v = 0;
-    int alldigits = 1, big = 0;
-    for (XMLSize_t i = start; i < end; i++) {
-      XMLCh c = fBuffer[i];
-      if (c < 0x30 || c > 0x39) { alldigits = 0; break; }
-      v = v * 10 + (unsigned)(c - 0x30);
-      if (v > 2147483647ull) { big = 1; v = 0; }
-    }
-    if (!alldigits) {
-      __CPROVER_assert(verif_thrown && verif_throw_type == VT_NumberFormatException, "C09: parseInt: a non-digit is rejected (NumberFormatException)");
-    } else {
-      if (end - start <= 9) __CPROVER_assert(!verif_thrown, "C09: parseInt: up to 9 digits always accepted");
-      __CPROVER_assert(verif_thrown || (!big && r >= 0 && (unsigned long long)r == v), "C09: parseInt: result is the decimal value of the digit string, no wrap-around");
-    }
-  } else {
-    /* ---------------- parseIntYear(end) ---------------- */
-    int r = XMLDateTime_parseIntYear(end);
-    VERIF_CANARY("after call");
-    XMLSize_t s = (n > 0 && fBuffer[0] == 0x2D) ? 1 : 0;
-    VERIF_ASSUME(s <= end);
-    unsigned long long v = 0;
-    int alldigits = 1, big = 0;
-    for (XMLSize_t i = s; i < end; i++) {
-      XMLCh c = fBuffer[i];
-      if (c < 0x30 || c > 0x39) { alldigits = 0; break; }
-      v = v * 10 + (unsigned)(c - 0x30);
-      if (v > 2147483647ull) { big = 1; v = 0; }
-    }
-    /* lexical space of the year part: '-'? digit{4,}, no leading zero when more than four digits (3.2.7.1) */
-    int lexical_ok = alldigits && (end - s >= 4) && !(end - s > 4 && fBuffer[s] == 0x30);
-    if (!lexical_ok)
-      __CPROVER_assert(verif_thrown, "C09: parseIntYear: year outside the lexical space (short, leading zero, non-digit) is rejected");
-    else {
-      if (end - s <= 9) __CPROVER_assert(!verif_thrown, "C09: parseIntYear: 4..9 digit year accepted");
-      __CPROVER_assert(verif_thrown || (!big && (s ? ((long long)r == -(long long)v) : ((long long)r == (long long)v))),
-                       "C09: parseIntYear: result is the (signed) decimal value of the year, no wrap-around");
-    }
-  }
+  XMLDateTime_parseInt(start, end);
+  VERIF_CANARY("after call");
 }
